@@ -21,7 +21,7 @@ EXPLANATION = (
 )
 MANIFEST_ENTRY = {
     "category": "other",
-    "text": "Bounded symbolic checking through the real compiler and runtime: for each program of the interrupt/guard corpus and every step-indexed truth table of its conditions within the horizon, the action log and the accept / reject / GuardViolation outcome equal those of a reference interpreter of the documented semantics.",
+    "text": "Bounded symbolic checking through the real compiler and runtime: for each program of the fixed interrupt/guard corpus and of a seeded set generated from the grammar of the fragment (nested try-interrupt to depth 3, up to 3 handlers, abort/break/continue/return, loops, do-until/for, guards) and every step-indexed truth table of its conditions within the horizon, the action log and the accept / reject / GuardViolation outcome equal those of a reference interpreter of the documented semantics.",
     "note": "Trusted: CrossHair, z3, the reference interpreter, DummySimulation. Bounds: horizon <= 4 steps, nesting depth <= 2, <= 2 handlers per statement. For Boolean tables symbolic execution amounts to solver-guided enumeration with don't-care merging.",
 }
 ASSUMPTIONS = ["conditions and guards are pure reads of step-indexed truth tables"]
